@@ -14,7 +14,8 @@ ID = "C10"
 BUDGET = {"quick": 3000, "thorough": 100000}
 REQUIRED = ["A:invert", "A:shift", "A:reorient", "A:reorient-nearest-is-corner-1-or-3", "B:set_patch", "B:project_side",
             "B:project_side+edges", "B:project_side+points", "B:get_face", "B:project_edge", "B:face.add_edge", "B:add_side_edge",
-            "B:project_corner", "B:sequence"]
+            "B:project_corner", "B:sequence", "A:corner-projected-before-the-calls", "B:queried-between-calls",
+            "B:probe-operation-after-addressing-calls"]
 MIN_KEYS = 150
 RULE = (
     "A: quadrilaterals in general position with four distinguishable edges (Arc / Origin / Project / Spline / Line), sequences "
@@ -71,6 +72,16 @@ def fixed_cases(tier):
         for pre in ([], [["invert"]], [["shift", 1]]):
             out.append({"part": "A", "quad": gen_quad(random.Random(f"c10/A/r{j}")), "calls": pre + [["reorient", j, [0.05, -0.04, 0.03]]],
                         "kinds": ["arc", "origin", "project", "spline"]})
+    # projected corners carried through re-indexing; calls interleaved with read-only queries
+    for k in (1, 2, 3, -1):
+        out.append({"part": "A", "quad": gen_quad(random.Random(f"c10/A/p{k}")), "calls": [["shift", k]], "kinds": ["arc", "origin", "line", "spline"],
+                    "corner_labels": ["cgA", None, "cgB", None]})
+    for j in (1, 3):
+        out.append({"part": "A", "quad": gen_quad(random.Random(f"c10/A/q{j}")), "calls": [["reorient", j, [0.05, -0.04, 0.03]], ["invert"]],
+                    "kinds": ["arc", "origin", "line", "spline"], "corner_labels": [None, "cgA", None, None]})
+    for a, b in (("bottom", "top"), ("left", "front"), ("right", "back")):
+        out.append({"part": "B", "pts": make_hex(random.Random(f"c10/q/{a}")), "calls": [["set_patch", a], ["set_patch", b], ["project_side", a]],
+                    "query_between": True})
     return out
 
 
@@ -90,7 +101,8 @@ def gen_case(ctx):
         if kinds.count("line") > 1:
             kinds = ["arc", "origin", "project", "line"]
             rng.shuffle(kinds)
-        return {"part": "A", "quad": gen_quad(rng), "calls": calls, "kinds": kinds}
+        labels = [rng.choice([None, None, f"cg{i}"]) for i in range(4)] if rng.random() < 0.6 else None
+        return {"part": "A", "quad": gen_quad(rng), "calls": calls, "kinds": kinds, "corner_labels": labels}
     calls = []
     used_sides, used_corners = set(), set()
     edge_use = {}  # frozenset(edge) -> "arc" | number of projection labels (an edge takes at most 2)
@@ -134,7 +146,7 @@ def gen_case(ctx):
             calls.append(["project_corner", c])
     if not calls:
         calls = [["set_patch", "top"]]
-    return {"part": "B", "pts": make_hex(rng), "calls": calls}
+    return {"part": "B", "pts": make_hex(rng), "calls": calls, "query_between": rng.random() < 0.5}
 
 
 # -------------------------------------------------------------------------------------------------
@@ -179,6 +191,16 @@ def run_a(ctx, case):
         else:
             edges.append(None)
     face = cb.Face(q, edges)
+    # corners projected before the calls: a label belongs to a geometric corner, not to a slot
+    for i, lb in enumerate(case.get("corner_labels") or []):
+        if lb:
+            face.points[i].project(lb)
+            ctx.count("A:corner-projected-before-the-calls")
+
+    def corner_labels():
+        return {tuple(np.round(p.position, 9)): sorted(p.projected_to) for p in face.points}
+
+    labels0 = corner_labels()
 
     def state():
         pts = [p.position.copy() for p in face.points]
@@ -210,6 +232,10 @@ def run_a(ctx, case):
             return
         if m != map0:
             ctx.violation(f"A:{name}:edge-moved-to-other-points", f"calls {case['calls']}: edge -> end-point map changed")
+            return
+        if corner_labels() != labels0:
+            ctx.violation(f"A:{name}:corner-projection-moved-to-another-corner",
+                          f"calls {case['calls']}: projections per corner position were {labels0}, now {corner_labels()}")
             return
         n_after = newell_normal(pts)
         dot = float(np.dot(n_before, n_after))
@@ -305,6 +331,16 @@ def run_b(ctx, case):
             geo[lb] = ["type sphere", "origin (0 0 0)", "radius 30"]
             op.project_corner(call[1], lb)
             exp_pverts.setdefault(call[1], set()).add(lb)
+        if case.get("query_between"):
+            # read-only queries on the long-lived operation between two calls: nothing may be frozen by looking at it
+            for attr in ("patch_names", "center", "point_array", "faces", "edges", "parts"):
+                try:
+                    getattr(op, attr)
+                except Exception:  # noqa: BLE001
+                    pass
+            for side in hexconv.SIDE_NAMES:
+                op.get_face(side)
+            ctx.count("B:queried-between-calls")
     if len(case["calls"]) > 1:
         ctx.count("B:sequence")
     mesh = cb.Mesh()
@@ -358,3 +394,48 @@ def run_b(ctx, case):
         ctx.violation("B:projected-corners:wrong-corners", f"calls {case['calls']}: projected corners {got_pv}, expected {exp_pverts}")
         return
     del tag
+    if any(c[0] in ("project_edge", "add_edge") or c[0].startswith("project_side+edges") for c in case["calls"]):
+        leak_probe(ctx, case, pts)
+
+
+def leak_probe(ctx, case, pts):
+    """addressing calls on one operation must not change how ANOTHER operation built afterwards is written: a probe loft with
+    a direction-dependent edge (spline through points at 20 % and 50 % of the way) on all eight face-edge slots, written"""
+    import classy_blocks as cb
+
+    shift = np.array([40.0, 0.0, 0.0])
+    P = pts + shift
+
+    def spl(a, b):
+        bulge = np.cross(b - a, [0.3, 0.5, 0.7]) * 0.15
+        return cb.Spline([list(a + (b - a) * 0.2 + bulge), list(a + (b - a) * 0.5 + bulge * 1.3)])
+
+    bottom = cb.Face(P[:4], [spl(P[i], P[(i + 1) % 4]) for i in range(4)])
+    top = cb.Face(P[4:], [spl(P[4 + i], P[4 + (i + 1) % 4]) for i in range(4)])
+    probe = cb.Loft(bottom, top)
+    for a in range(3):
+        probe.chop(a, count=1)
+    mesh = cb.Mesh()
+    mesh.add(probe)
+    path = util.tmpfile("c10p")
+    got, err = util.write_outcome(mesh, path)
+    if got != "success":
+        util.rm(path)
+        ctx.violation(f"B:probe-after-addressing-calls:write-failed:{got}", f"after {case['calls']}: {err!r}")
+        return
+    parsed = foamdict.read_blockmesh(path)
+    util.rm(path)
+    ctx.count("B:probe-operation-after-addressing-calls")
+    vpos = [np.array(v["pos"]) for v in parsed["vertices"]]
+    nspl = 0
+    for e in parsed["edges"]:
+        if e["kind"] != "spline":
+            continue
+        nspl += 1
+        a, b, first = vpos[e["a"]], vpos[e["b"]], np.array(e["points"][0])
+        if np.linalg.norm(first - a) >= np.linalg.norm(first - b):
+            ctx.violation("B:probe-after-addressing-calls:spline-points-run-backwards",
+                          f"after {case['calls']} on another operation: a fresh loft's spline {e['a']} {e['b']} lists its points from the far end")
+            return
+    if nspl != 8:
+        ctx.violation("B:probe-after-addressing-calls:spline-count", f"after {case['calls']}: {nspl} spline entries for 8 spline edges")
